@@ -1090,9 +1090,13 @@ func hpCheckClean(prop string, g *hpGen, b *hpBlock, B *hpSide, R *hpRefResult, 
 			return v
 		}
 	}
-	ev := "events=" + b.evsig
+	ev := hpEvClass(b.evsig)
 	if B.err != nil {
-		return vs.Violf("C01", "decoder_error", hpErrClass(B.err)+"|"+ev,
+		lead := 0
+		for lead < len(R.reprs) && R.reprs[lead].kind == hpKindSizeUpdate {
+			lead++
+		}
+		return vs.Violf("C01", "decoder_error", fmt.Sprintf("%s|leading_updates=%d|%s", hpErrClass(B.err), lead, ev),
 			"decoder returned %v for an undamaged block (%d of %d fields emitted); size events before the block: [%s]; block %s", B.err, len(B.emitted), len(b.fields), b.evsig, vs.Hex(b.data))
 	}
 	if i, same := hpSameFields(B.emitted, b.fields); !same {
@@ -1116,6 +1120,39 @@ func hpCheckClean(prop string, g *hpGen, b *hpBlock, B *hpSide, R *hpRefResult, 
 		ref.adopt(B.d)
 	}
 	return nil
+}
+
+// hpEvClass is the normal form of the size events at a block boundary used in
+// violation signatures.
+func hpEvClass(evsig string) string {
+	if evsig == "" {
+		return "no_size_event"
+	}
+	toks := strings.Split(evsig, ",")
+	limitLowered, lowered := false, false
+	for _, t := range toks {
+		switch {
+		case strings.HasSuffix(t, "-"):
+			lowered = true
+			if t[0] == 'a' || t[0] == 'm' {
+				limitLowered = true
+			}
+		case strings.HasSuffix(t, "+"):
+			if limitLowered {
+				return "limit_lowered_then_size_raised"
+			}
+			if lowered {
+				return "size_lowered_then_raised"
+			}
+		}
+	}
+	switch {
+	case lowered:
+		return "size_lowered"
+	case strings.Contains(evsig, "+"):
+		return "size_raised"
+	}
+	return "size_unchanged"
 }
 
 var hpKindNames = []string{"indexed", "literal with incremental indexing", "literal without indexing", "literal never indexed", "size update"}
@@ -1274,7 +1311,11 @@ func hpCheckC03(d *hpDeliv, A, B *hpSide) *vs.Violation {
 		vs.G.Inc("probe.failing_block_compared")
 	}
 	if (A.err == nil) != (B.err == nil) {
-		return vs.Violf("C03", "outcome_differs", hpErrClass(A.err)+"/"+hpErrClass(B.err),
+		sig := hpErrClass(A.err) + "/" + hpErrClass(B.err)
+		if A.maxStr != 0 && len(d.data) > 2*(A.maxStr+8) {
+			sig += "|block_longer_than_2x(maxstr+8)"
+		}
+		return vs.Violf("C03", "outcome_differs", sig,
 			"one Write: %v; split into several Writes: %v (block %s)", A.err, B.err, vs.Hex(d.data))
 	}
 	if hpErrClass(A.err) != hpErrClass(B.err) {
